@@ -18,6 +18,11 @@ class _Hang(Exception):
     pass
 
 
+# API-violating replies of step() (C13), as functions of the step time
+BAD_REPLIES = {"same_time": lambda t: t, "earlier": lambda t: t - 1, "float": lambda t: t + 1.5, "string": lambda t: str(t + 1),
+               "bad_output_time": None}
+
+
 def _make_class(spec, fault, log, role):
     import mosaik_api_v3
     from contracts.determinism_native import _meta, behave, produce
@@ -28,7 +33,10 @@ def _make_class(spec, fault, log, role):
         counters[method] += 1
         if fault["role"] == role and fault["method"] == method and fault["index"] == k:
             log.append(("fault", role, method, k))
+            if fault["kind"] in BAD_REPLIES:
+                return True
             raise (ConnectionResetError("connection reset") if fault["kind"] == "connection" else ValueError("boom"))
+        return False
 
     class Sim(mosaik_api_v3.Simulator):
         def __init__(self):
@@ -47,12 +55,16 @@ def _make_class(spec, fault, log, role):
 
         def step(self, time, inputs, max_advance):
             yield asyncio.sleep(0)          # steps of different simulators overlap
-            maybe_fail("step")
+            bad = maybe_fail("step")
             self.st, nxt = behave(spec, self.st, time, inputs)
+            if bad:
+                return BAD_REPLIES[fault["kind"]](time)
             return nxt
 
         def get_data(self, outputs):
-            maybe_fail("get_data")
+            bad = maybe_fail("get_data")
+            if bad:
+                return {"time": self.st["time"] - 1}      # an output time before the step time
             out = {}
             for eid, attrs in outputs.items():
                 d, _ = produce(spec, self.st, attrs)
@@ -67,7 +79,7 @@ def _make_class(spec, fault, log, role):
     return Sim
 
 
-def run_with_fault(name, fault, watchdog=5):
+def run_with_fault(name, fault, watchdog=5, debug=False):
     import sys
     import types
     import mosaik
@@ -80,7 +92,8 @@ def run_with_fault(name, fault, watchdog=5):
         setattr(mod, r, _make_class(spec, fault, log, r))
         cfg[r] = {"python": f"_c14_sims:{r}"}
     sys.modules["_c14_sims"] = mod
-    world = mosaik.World(cfg, skip_greetings=True)
+    world = mosaik.World(cfg, skip_greetings=True, debug=debug)
+    message = ""
 
     def on_alarm(*a):
         raise _Hang()
@@ -106,6 +119,7 @@ def run_with_fault(name, fault, watchdog=5):
             outcome = "hang"
         except BaseException as e:  # noqa: BLE001
             outcome = f"error {type(e).__name__}"
+            message = str(e)
         finally:
             signal.alarm(0)
     finally:
@@ -119,7 +133,7 @@ def run_with_fault(name, fault, watchdog=5):
             world.loop.close()
         except Exception:  # noqa: BLE001
             pass
-    return {"outcome": outcome, "log": log, "loop_closed": closed, "pending": pending}
+    return {"outcome": outcome, "log": log, "loop_closed": closed, "pending": pending, "message": message}
 
 
 def run_remote(name, remote_role, fault, watchdog=8):
@@ -369,3 +383,44 @@ def bounded_transport(tier, seed):
                              "case": {"scenario": name, "remote": role}})
     return {"bound": f"{combos}: (scenario, the simulator run as a separate process through 'cmd'); baseline configuration", "cases": cases,
             "nontrivial": cases, "failures": failures}
+
+
+def bounded_reply_validation(tier, seed):
+    """C13 end to end: one API-violating reply per run (a next step that is not later / not an int, an output time before the step
+    time) at the k-th step / get_data of every simulator, with debug mode off and on: run() must end with a SimulationError that
+    names the simulator -- never finish normally, never step into the past."""
+    import warnings
+    from contracts.determinism_native import SCENARIOS
+    warnings.simplefilter("ignore")
+    try:
+        from loguru import logger
+        logger.remove()
+    except Exception:  # noqa: BLE001
+        pass
+    names = ["chain_1_1", "events", "events_and_data"] if tier == "thorough" else ["chain_1_1", "events"]
+    failures, cases, nontrivial = [], 0, 0
+    for name in names:
+        sims = SCENARIOS[name][0]
+        for role, spec in sims.items():
+            for k in (0, 1):
+                kinds = ["same_time", "earlier", "float", "string"] if spec["type"] != "event-based" else ["same_time", "earlier", "string"]
+                if spec["type"] != "time-based":
+                    kinds.append("bad_output_time")
+                for kind in kinds:
+                    for debug in (False, True):
+                        method = "get_data" if kind == "bad_output_time" else "step"
+                        fault = {"role": role, "method": method, "index": k, "kind": kind}
+                        cases += 1
+                        r = run_with_fault(name, fault, debug=debug)
+                        if not any(e[0] == "fault" for e in r["log"]):
+                            continue
+                        nontrivial += 1
+                        ok = r["outcome"] == "error SimulationError" and f"{role}-0" in r["message"]
+                        if not ok:
+                            failures.append({"desc": f"{name}, debug={debug}: {role} answers its {method} #{k} with an API violation ({kind}): run() "
+                                                     f"{r['outcome']} {('(' + r['message'][:80] + ')') if r['message'] else ''} instead of a "
+                                                     f"SimulationError naming {role}-0", "case": {"scenario": name, "debug": debug, **fault}})
+                            if len(failures) >= 5:
+                                break
+    return {"bound": f"scenarios {names} x every simulator x step / get_data #0, #1 x (next step same / earlier / float / string; output time before "
+                     "the step time) x debug off / on", "cases": cases, "nontrivial": nontrivial, "failures": failures[:5]}
